@@ -226,6 +226,14 @@ def drive_giant(rec):
     L = Lib.get()
     n = 65536
     ok = 0
+    try:
+        avail = int([l for l in open("/proc/meminfo") if l.startswith("MemAvailable")][0].split()[1]) // 1024      # MiB
+    except (OSError, IndexError, ValueError):
+        avail = 0
+    if avail < 20000:
+        rec.notes.append("giant objects: only %d MiB of memory available, 20000 needed - skipped (not a verdict)" % avail)
+        rec.data["ok"] = 0
+        return
     mod = L.module(n, FFT64, MASK_NONE)
     rows = 8201
     sp = Sparse(2 * (rows + 2) * 8 * n)
